@@ -165,6 +165,15 @@ reg('C13', 'ENUM',
     'CPU-time watchdog.',
     'nested multipart/mixed and -charset- fields are not generated', 'DESIGN.md section 5 C13')
 
+reg('C17', 'ENUM+CHOICE',
+    'bounded-exhaustive enumeration of responder scripts (all sequences of <=k operations) x client scripts x spec versions x queue sizes x routing/middleware/handler variants, one injected send() failure at every call index; independent ASGI WebSocket monitor + (state x operation) outcome table',
+    'Every responder script of <=3 operations over 17 operations (thorough: <=4 over a 12-operation core) runs as a real session on falcon.asgi.App for each client '
+    'script, spec version, queue size; the outgoing event stream is checked by an independent automaton (one accept, data only while open, one close, nothing '
+    'after close or after the disconnect was handed over, accept headers / close reason by spec version, a close always owed) and against the expected event '
+    'list; every operation outcome is compared with the documented error table; close codes 3404/3405/3000+status/error_close_code(3011 fallback); one failing '
+    'server send() at every call index x 4 error kinds.',
+    'default deterministic schedule (exhaustive pump scheduling is C18); binary media payloads not judged (no msgpack in the image)', 'DESIGN.md section 5 C17')
+
 PENDING = {}
 
 ALL = ['C%02d' % i for i in range(1, 21)]
